@@ -63,8 +63,10 @@ def opC18Generate (j : Json) : Except String Json := do
       let allow ← (← getArrL sg "methods").mapM fun s => s.getStr?
       pure (prune allow (← c18Bool sg "internal") api)
     | .error _ => pure api
+  -- (a key `hidden` — selectors of the methods whose request message is declared in a file that is not generated — is
+  -- accepted and ignored: since f83c180 such a request is validated like any other)
   let errs := generate api (views.map (viewOf api)) ss
-  pure (Json.mkObj [("accepted", Json.bool errs.isEmpty),
+  pure (Json.mkObj [("accepted", Json.bool errs.isEmpty), ("outcome", Json.str (if errs.isEmpty then "ok" else "settingsError")),
                     ("errors", jarr (errs.map fun (k, e) => jarr [Json.str k, c18ErrJson e]))])
 
 open Model.AutoPop in
